@@ -231,7 +231,7 @@ class Run:
             have = st.classes.get(cls, 0) / max(1, st.evaluations)
             if have < frac and not self.violations:     # failures cut the search short and skew the mix
                 raise HarnessError(f"generator health: class {cls!r} fraction {have:.4f} < {frac}")
-        if len(st.nontrivial) < 2:
+        if len(st.nontrivial) < 2 and not self.violations:       # failures cut the search short
             raise HarnessError("fewer than 2 distinct non-trivial cases")
         print(f"{self.pid} {self.tier} seed={self.seed}: evaluations={st.evaluations} "
               f"distinct_nontrivial={len(st.nontrivial)} violations={len(self.violations)} "
